@@ -251,10 +251,15 @@ func (b *ScriptBody) Read(p []byte) (int, error) {
 		n = len(p)
 	}
 	if b.idx < len(b.Chunks) {
-		if c := b.Chunks[b.idx]; c > 0 && c < n {
+		c := b.Chunks[b.idx]
+		b.idx++
+		if c < 0 {
+			// "nothing happened": a zero count with a nil error, which callers must not take for the end
+			return 0, nil
+		}
+		if c > 0 && c < n {
 			n = c
 		}
-		b.idx++
 	}
 	if b.Gate != nil {
 		b.Gate(b.pos, n)
